@@ -1,8 +1,10 @@
-(** Proofs about Logic/Switching.v: partial correctness of [to_cnf_switching]
-    relative to fuel and to the exceptions of the code.  Whenever it returns,
-    the result is a CNF over the original variables and the reported fresh
-    range whose models, projected to the original variables, are exactly the
-    models of the input. *)
+(** Proofs about Logic/Switching.v.  Correctness of [to_cnf_switching]: whenever
+    it returns, the result is a CNF over the original variables and the
+    reported fresh range whose models, projected to the original variables, are
+    exactly the models of the input.  Totality: it returns on every formula
+    and every counter ([switching_fuel] covers the recursion of
+    [__distribute_ors_switching] on the formulas it rebuilds, and none of the
+    error branches of the model is reachable). *)
 From Coq Require Import ZArith List Bool Lia ZifyBool Permutation Arith.
 From SP Require Import Base.Sat Logic.Formula Logic.Naive Logic.Switching Logic.TseitinProofs Logic.NaiveProofs.
 Import ListNotations.
@@ -471,11 +473,14 @@ Proof.
            destruct (IH c (fr + 1) g b ltac:(lia) Gc (step_bounded _ a _ _ Ha S2 Bf) H) as [S3 [Rg _]].
            split; [now apply (step_trans _ _ _ _ _ _ S2)|now apply CR].
     + destruct cl as [|c0 [|c1 rest]]; cbn [length] in Len; try discriminate.
-      inversion H. subst g b. split.
-      * eapply step_trans; [exact S1|]. apply step_equiv.
-        -- intros t. cbn [neval existsb]. now rewrite orb_false_r.
-        -- cbn [nleaves flat_map]. rewrite app_nil_r. apply incl_refl.
-      * apply CR. apply lit_or_cnf_R. apply Lc. now left.
+      * (* empty disjunction: returned unchanged *)
+        inversion H. subst g b. apply Permutation_sym, Permutation_nil in H2. subst ys.
+        inversion F. subst l. split; [apply step_refl|]. apply CR. reflexivity.
+      * inversion H. subst g b. split.
+        -- eapply step_trans; [exact S1|]. apply step_equiv.
+           ++ intros t. cbn [neval existsb]. now rewrite orb_false_r.
+           ++ cbn [nleaves flat_map]. rewrite app_nil_r. apply incl_refl.
+        -- apply CR. apply lit_or_cnf_R. apply Lc. now left.
 Qed.
 
 Lemma wrap_and_R g : R g = true -> is_cnf (wrap_and g) = true.
@@ -518,15 +523,431 @@ Proof.
       destruct (Cmp s Hs) as [t [O Ht]]. exists t. split; [exact O|now rewrite wrap_and_sem].
 Qed.
 
-(** The conversion is not total either. *)
-Lemma switching_not_total :
-  (exists f nv, to_cnf_switching f nv = Err ETypeError) /\
-  (exists f nv, to_cnf_switching f nv = Err EIndexError).
+(** * Shape of the result, without the calling convention *)
+Definition shape_spec (d : nf -> Z -> res (nf * Z)) : Prop :=
+  forall f a g b, G f = true -> d f a = Ok (g, b) -> cls_post f g.
+
+Lemma chain_shapes d l a ys b :
+  shape_spec d -> chain d l a ys b -> forallb G l = true -> Forall2 cls_post l ys.
 Proof.
-  split.
-  - exists (FNot (FIf (FVar 1) (FVar 2))), 3. vm_compute. reflexivity.
-  - exists (FOr []), 1. vm_compute. reflexivity.
+  intros Hd C. induction C as [fr|x l fresh y fr1 ys fr Hx C IH]; intros HG; [constructor|].
+  cbn [forallb] in HG. apply andb_true_iff in HG. destruct HG as [Gx Gl].
+  constructor; [now apply (Hd x fresh y fr1)|now apply IH].
 Qed.
+
+Lemma sw_comb_G c0 c1 rest a c b :
+  lit_or_cnf c0 = true -> lit_or_cnf c1 = true -> (forall x, In x rest -> lit_or_cnf x = true) ->
+  switching_combination (c0 :: c1 :: rest) a = Ok (c, b) -> G c = true.
+Proof.
+  intros H0 H1 Hr H. cbn [switching_combination] in H.
+  set (comb := NAnd [NOr [NNot (NVar a); c0]; NOr [NVar a; c1]]) in *.
+  destruct (lit_or_cnf_G _ H0) as [G0 O0]. destruct (lit_or_cnf_G _ H1) as [G1 O1].
+  assert (Gc : G comb = true).
+  { cbn [comb G forallb is_or negb andb]. now rewrite G0, G1, O0, O1. }
+  destruct rest as [|r0 rest].
+  - inversion H. subst c. assumption.
+  - apply rbind_ok in H. destruct H as [c' [Hb H]]. inversion H. subst c' b.
+    assert (FG : forallb G (comb :: r0 :: rest) = true).
+    { change (G comb && forallb G (r0 :: rest) = true). rewrite Gc. cbn [andb].
+      apply forallb_forall. intros x Hx. now apply lit_or_cnf_G, Hr. }
+    apply (proj1 (build_G _ FG)). assumption.
+Qed.
+
+Lemma dist_sw_shape n : shape_spec (dist_sw n).
+Proof.
+  induction n as [|n IH]; intros f a g b Gf H; cbn [dist_sw] in H; [discriminate|].
+  destruct f as [z|c|l|l].
+  - inversion H. subst g b. split; [reflexivity|split; [reflexivity|discriminate]].
+  - destruct c as [z|?|?|?]; try discriminate. inversion H. subst g b.
+    split; [reflexivity|split; [reflexivity|discriminate]].
+  - apply rbind_ok in H. destruct H as [[cl fr] [H1 H]]. apply rbind_ok in H. destruct H as [a' [H2 H3]].
+    inversion H3. subst g b. clear H3.
+    apply dist_fold_chain in H1. destruct H1 as [ys [E C]]. cbn [app] in E. subst cl.
+    pose proof (chain_shapes _ _ _ _ _ IH C Gf) as F.
+    assert (Cn : is_cnf a' = true).
+    { apply (build_and_R ys); [|assumption]. intros y Hy.
+      destruct (Forall2_in_r _ _ _ _ F Hy) as [x [_ [Ry _]]]. exact Ry. }
+    unfold cls_post, R, lit_or_cnf. rewrite Cn, !orb_true_r. split; [reflexivity|split; [reflexivity|]].
+    intros _. apply build_and_shape in H2. destruct H2 as [m ->]. reflexivity.
+  - apply rbind_ok in H. destruct H as [[cl0 fr] [H1 H]]. apply rbind_ok in H. destruct H as [cl [H2 H]].
+    apply dist_fold_chain in H1. destruct H1 as [ys [E C]]. cbn [app] in E. subst cl0.
+    destruct (G_or_members l Gf) as [Gl NO].
+    pose proof (chain_shapes _ _ _ _ _ IH C Gl) as F.
+    apply pysort_perm in H2.
+    assert (Lc : forall c, In c cl -> lit_or_cnf c = true).
+    { intros c Hc. apply (Permutation_in _ (Permutation_sym H2)) in Hc.
+      destruct (Forall2_in_r _ _ _ _ F Hc) as [x [Hx [_ [P _]]]]. apply P. now apply NO. }
+    assert (CR : forall g', cls_post (NOr l) g' <-> R g' = true).
+    { intros g'. unfold cls_post. cbn [is_or is_and]. split; [tauto|]. intros X. split; [assumption|].
+      split; discriminate. }
+    destruct (1 <? length cl)%nat eqn:Len.
+    + destruct (should_not_combine cl) eqn:SNC.
+      * inversion H. subst g b. apply CR. unfold R, is_clause. cbn [is_lit orb].
+        replace (forallb is_lit l) with true; [reflexivity|]. symmetry. apply forallb_forall. intros x Hx.
+        destruct (Forall2_in_l _ _ _ _ F Hx) as [y [Hy [_ [_ PA]]]].
+        assert (Gx : G x = true) by (rewrite forallb_forall in Gl; now apply Gl).
+        destruct (nonor_G_cases x Gx (NO x Hx)) as [X|X]; [assumption|].
+        exfalso. unfold should_not_combine in SNC. apply negb_true_iff in SNC.
+        assert (existsb is_and cl = true); [|congruence].
+        apply existsb_exists. exists y. split; [now apply (Permutation_in _ H2)|now apply PA].
+      * destruct cl as [|c0 [|c1 rest]]; cbn [length] in Len; try discriminate.
+        cbn [should_combine_naively rbind] in H.
+        assert (L0 : lit_or_cnf c0 = true) by (apply Lc; now left).
+        assert (L1 : lit_or_cnf c1 = true) by (apply Lc; right; now left).
+        assert (Lr : forall x, In x rest -> lit_or_cnf x = true) by (intros x Hx; apply Lc; right; now right).
+        destruct (is_lit_shape c0 || is_lit_shape c1).
+        -- apply rbind_ok in H. destruct H as [c [Hc H]].
+           destruct (naive_comb_spec c0 c1 rest c L0 L1 Lr Hc) as [Gc _].
+           destruct (IH c fr g b Gc H) as [Rg _]. now apply CR.
+        -- apply rbind_ok in H. destruct H as [[c fr'] [Hc H]].
+           pose proof (sw_comb_G c0 c1 rest fr c fr' L0 L1 Lr Hc) as Gc.
+           destruct (IH c fr' g b Gc H) as [Rg _]. now apply CR.
+    + destruct cl as [|c0 [|c1 rest]]; cbn [length] in Len; try discriminate.
+      * inversion H. subst g b. apply Permutation_sym, Permutation_nil in H2. subst ys.
+        inversion F. subst l. apply CR. reflexivity.
+      * inversion H. subst g b. apply CR. apply lit_or_cnf_R. apply Lc. now left.
+Qed.
+
+(** * Totality *)
+Definition comb_tail (n : nat) (cl : list nf) (fr : Z) : res (nf * Z) :=
+  b <- should_combine_naively cl ;;
+  if (b : bool) then c <- naive_combination cl ;; dist_sw n c fr
+  else ' (c, fr') <- switching_combination cl fr ;; dist_sw n c fr'.
+
+Lemma dist_sw_or n l fresh :
+  dist_sw (S n) (NOr l) fresh =
+  (' (cl0, fr) <- dist_fold (dist_sw n) l [] fresh ;;
+   cl <- pysort cl0 ;;
+   if (1 <? length cl)%nat then
+     if should_not_combine cl then Ok (NOr l, fresh) else comb_tail n cl fr
+   else match cl with c0 :: _ => Ok (c0, fr) | [] => Ok (NOr l, fresh) end).
+Proof. reflexivity. Qed.
+
+Lemma dist_sw_and n l fresh :
+  dist_sw (S n) (NAnd l) fresh =
+  (' (cl, fr) <- dist_fold (dist_sw n) l [] fresh ;; a <- build_and cl ;; Ok (a, fr)).
+Proof. reflexivity. Qed.
+
+Definition total_on (d : nf -> Z -> res (nf * Z)) (x : nf) : Prop :=
+  forall a, exists y b, d x a = Ok (y, b).
+
+Lemma dist_fold_total d l : (forall x, In x l -> total_on d x) ->
+  forall acc fresh, exists ys fr, dist_fold d l acc fresh = Ok (acc ++ ys, fr) /\ chain d l fresh ys fr.
+Proof.
+  induction l as [|x l IH]; intros H acc fresh; cbn [dist_fold].
+  - exists [], fresh. rewrite app_nil_r. split; [reflexivity|constructor].
+  - destruct (H x (or_introl eq_refl) fresh) as [y [b E]]. rewrite E. cbn [rbind].
+    destruct (IH (fun a Ha => H a (or_intror Ha)) (acc ++ [y]) b) as [ys [fr [E2 C]]].
+    exists (y :: ys), fr. rewrite E2, <- app_assoc. split; [reflexivity|econstructor; eassumption].
+Qed.
+
+Lemma lit_run n c a : is_lit c = true -> dist_sw (S n) c a = Ok (c, a).
+Proof. destruct c as [z|[z|?|?|?]|?|?]; cbn; intros H; try discriminate; reflexivity. Qed.
+
+Lemma lit_total n c : is_lit c = true -> total_on (dist_sw (S n)) c.
+Proof. intros H a. rewrite (lit_run n c a H). eauto. Qed.
+
+Lemma chain_lits n l a ys b :
+  chain (dist_sw (S n)) l a ys b -> forallb is_lit l = true -> ys = l /\ b = a.
+Proof.
+  intros C. induction C as [fr|x l fresh y fr1 ys fr Hx C IH]; intros Hl; [auto|].
+  cbn [forallb] in Hl. apply andb_true_iff in Hl. destruct Hl as [A B].
+  rewrite (lit_run n x fresh A) in Hx. inversion Hx. subst y fr1. destruct (IH B) as [-> ->]. auto.
+Qed.
+
+Lemma lits_no_and m : forallb is_lit m = true -> existsb is_and m = false.
+Proof.
+  induction m as [|c m IH]; cbn [forallb existsb]; [reflexivity|]. intros H.
+  apply andb_true_iff in H. destruct H as [A B]. destruct (is_lit_G c A) as [_ [_ ->]]. now apply IH.
+Qed.
+
+Lemma clause_total n x : is_clause x = true -> total_on (dist_sw (2 + n)) x.
+Proof.
+  intros H a. destruct (is_clause_cases x H) as [[A _]|[m [-> Hm]]].
+  - apply (lit_total (S n) x A).
+  - change (2 + n)%nat with (S (S n)). rewrite dist_sw_or.
+    assert (T : forall x, In x m -> total_on (dist_sw (S n)) x).
+    { intros x Hx. apply lit_total. rewrite forallb_forall in Hm. now apply Hm. }
+    destruct (dist_fold_total _ m T [] a) as [ys [fr [E C]]].
+    destruct (chain_lits _ _ _ _ _ C Hm) as [-> ->]. rewrite E. cbn [rbind app].
+    destruct (pysort_total m) as [cl Hcl]. rewrite Hcl. cbn [rbind].
+    destruct (1 <? length cl)%nat.
+    + assert (S : should_not_combine cl = true).
+      { unfold should_not_combine. apply negb_true_iff.
+        rewrite <- (existsb_perm _ _ _ (pysort_perm _ _ Hcl)). now apply lits_no_and. }
+      rewrite S. eauto.
+    + destruct cl; eauto.
+Qed.
+
+(** re-running the distribution on a literal or a CNF *)
+Lemma rerun_total n c : lit_or_cnf c = true -> total_on (dist_sw (3 + n)) c.
+Proof.
+  intros H a. unfold lit_or_cnf in H. apply orb_true_iff in H. destruct H as [H|H].
+  - apply (lit_total (2 + n) c H).
+  - destruct c as [z|?|cls|?]; cbn [is_cnf] in H; try discriminate.
+    change (3 + n)%nat with (S (2 + n)). rewrite dist_sw_and.
+    assert (T : forall x, In x cls -> total_on (dist_sw (2 + n)) x).
+    { intros x Hx. apply clause_total. rewrite forallb_forall in H. now apply H. }
+    destruct (dist_fold_total _ cls T [] a) as [ys [fr [E _]]]. rewrite E. cbn [rbind app].
+    destruct (build_and_total ys) as [g ->]. cbn [rbind]. eauto.
+Qed.
+
+Lemma naive_comb_struct c0 c1 rest :
+  lit_or_cnf c0 = true -> lit_or_cnf c1 = true ->
+  exists ors, is_cnf (NAnd ors) = true /\
+    naive_combination (c0 :: c1 :: rest) =
+    match rest with [] => Ok (NAnd ors) | _ => build_or (NAnd ors :: rest) end.
+Proof.
+  intros H0 H1. cbn [naive_combination].
+  match goal with |- context [mapM ?F ?L] => destruct (mapM_total F L) as [ors E] end.
+  { intros x _. destruct (flatten_total x false) as [r ->]. cbn [rbind]. eauto. }
+  exists ors. rewrite E. cbn [rbind]. split; [|reflexivity].
+  apply mapM_ok in E. rewrite crossing_cprod in E.
+  change (Forall2 (fun x y => build_or x = Ok y) (cprod [get_list_for_crossing c0; get_list_for_crossing c1]) ors) in E.
+  cbn [is_cnf]. apply forallb_forall. intros o Ho. apply (ors_clauses _ _ E); [|assumption].
+  intros t x Ht Hx. destruct (cprod_in _ _ _ Ht Hx) as [l [Hl Hxl]].
+  destruct Hl as [<-|[<-|[]]]; [now apply (glfc_clauses c0)|now apply (glfc_clauses c1)].
+Qed.
+
+Lemma build_or_noflat l g :
+  (forall x, In x l -> is_or x = false) -> build_or l = Ok g -> exists l', g = NOr l' /\ Permutation l l'.
+Proof.
+  intros Hl H. unfold build_or in H. apply rbind_ok in H. destruct H as [l' [H1 H2]]. inversion H2.
+  exists l'. split; [reflexivity|]. apply flatten_perm in H1.
+  replace (flat_map (flat1 false) l) with l in H1; [assumption|].
+  clear -Hl. induction l as [|c l IH]; [reflexivity|]. cbn [flat_map]. unfold flat1 at 1.
+  rewrite (Hl c (or_introl eq_refl)). cbn [app]. f_equal. apply IH. intros x Hx. apply Hl. now right.
+Qed.
+
+Lemma loc_and_cnf y : lit_or_cnf y = true -> is_and y = true -> is_cnf y = true.
+Proof.
+  unfold lit_or_cnf. intros H A. apply orb_true_iff in H. destruct H as [H|H]; [|assumption].
+  destruct (is_lit_G y H) as [_ [_ X]]. congruence.
+Qed.
+
+Lemma loc_notshape c : lit_or_cnf c = true -> is_lit_shape c = false -> is_cnf c = true.
+Proof.
+  unfold lit_or_cnf. intros H A. apply orb_true_iff in H. destruct H as [H|H]; [|assumption].
+  destruct c as [z|[z|?|?|?]|?|?]; cbn in *; discriminate.
+Qed.
+
+Lemma is_lit_shape_lit c : is_lit c = true -> is_lit_shape c = true.
+Proof. destruct c as [z|?|?|?]; cbn; intros H; try discriminate; reflexivity. Qed.
+
+(** a disjunction of a literal and a CNF *)
+Lemma lit_cnf_pair_total n L c :
+  is_lit L = true -> is_cnf c = true -> total_on (dist_sw (4 + n)) (NOr [L; c]).
+Proof.
+  intros HL Hc a. change (4 + n)%nat with (S (S (2 + n))). rewrite dist_sw_or. cbn [dist_fold].
+  rewrite (lit_run _ L a HL). cbn [rbind].
+  assert (Lc : lit_or_cnf c = true) by (unfold lit_or_cnf; now rewrite Hc, orb_true_r).
+  destruct (rerun_total n c Lc a) as [y1 [b1 E1]]. change (3 + n)%nat with (S (2 + n)) in E1.
+  rewrite E1. cbn [rbind app dist_fold].
+  destruct (is_cnf_G c Hc) as [Gc Oc].
+  destruct (dist_sw_shape _ c a y1 b1 Gc E1) as [_ [P1 P2]].
+  assert (A1 : is_and y1 = true) by (apply P2; destruct c; cbn in Hc; try discriminate; reflexivity).
+  assert (C1 : is_cnf y1 = true) by (apply loc_and_cnf; [now apply P1|assumption]).
+  destruct (pysort_total [L; y1]) as [cl Hcl]. rewrite Hcl. cbn [rbind].
+  assert (T : forall x0 x1, (x0 = L /\ x1 = y1) \/ (x0 = y1 /\ x1 = L) ->
+            exists g b, (if (1 <? length [x0; x1])%nat
+                         then if should_not_combine [x0; x1] then Ok (NOr [L; c], a) else comb_tail (S (2 + n)) [x0; x1] b1
+                         else match [x0; x1] with c0 :: _ => Ok (c0, b1) | [] => Ok (NOr [L; c], a) end) = Ok (g, b)).
+  { intros x0 x1 Hx. cbn [length Nat.ltb Nat.leb].
+    assert (SN : should_not_combine [x0; x1] = false).
+    { unfold should_not_combine. cbn [existsb]. destruct Hx as [[-> ->]|[-> ->]]; rewrite A1; cbn;
+        now rewrite ?orb_true_r. }
+    rewrite SN. unfold comb_tail. cbn [should_combine_naively rbind].
+    assert (SC : is_lit_shape x0 || is_lit_shape x1 = true).
+    { destruct Hx as [[-> ->]|[-> ->]]; rewrite (is_lit_shape_lit L HL); cbn; now rewrite ?orb_true_r. }
+    rewrite SC.
+    assert (L0 : lit_or_cnf x0 = true /\ lit_or_cnf x1 = true).
+    { unfold lit_or_cnf. destruct Hx as [[-> ->]|[-> ->]]; rewrite HL, C1; cbn; now rewrite ?orb_true_r. }
+    destruct L0 as [L0 L1]. destruct (naive_comb_struct x0 x1 [] L0 L1) as [ors [Co ->]]. cbn [rbind].
+    apply (rerun_total n (NAnd ors)). unfold lit_or_cnf. now rewrite Co, orb_true_r. }
+  apply pysort_perm in Hcl. apply Permutation_length_2_inv in Hcl. destruct Hcl as [-> | ->]; apply T; auto.
+Qed.
+
+(** the member built from the first two clauses *)
+Definition good_comb (comb : nf) : Prop :=
+  G comb = true /\ is_and comb = true /\ forall n, total_on (dist_sw (5 + n)) comb.
+
+Lemma cnf_good ors : is_cnf (NAnd ors) = true -> good_comb (NAnd ors).
+Proof.
+  intros H. split; [now apply is_cnf_G|]. split; [reflexivity|]. intros n.
+  change (5 + n)%nat with (3 + (2 + n))%nat. apply rerun_total. unfold lit_or_cnf. now rewrite H, orb_true_r.
+Qed.
+
+Lemma sw_good v c0 c1 :
+  is_cnf c0 = true -> is_cnf c1 = true -> good_comb (NAnd [NOr [NNot (NVar v); c0]; NOr [NVar v; c1]]).
+Proof.
+  intros H0 H1. destruct (is_cnf_G _ H0) as [G0 O0]. destruct (is_cnf_G _ H1) as [G1 O1].
+  split; [|split; [reflexivity|]].
+  - cbn [G forallb is_or negb andb]. now rewrite G0, G1, O0, O1.
+  - intros n a. change (5 + n)%nat with (S (4 + n)). rewrite dist_sw_and.
+    assert (T : forall x, In x [NOr [NNot (NVar v); c0]; NOr [NVar v; c1]] -> total_on (dist_sw (4 + n)) x).
+    { intros x [<-|[<-|[]]]; now apply lit_cnf_pair_total. }
+    destruct (dist_fold_total _ _ T [] a) as [ys [fr [E _]]]. rewrite E. cbn [rbind app].
+    destruct (build_and_total ys) as [g ->]. cbn [rbind]. eauto.
+Qed.
+
+Lemma comb_tail_struct n c0 c1 rest fr :
+  lit_or_cnf c0 = true -> lit_or_cnf c1 = true ->
+  exists comb fr', good_comb comb /\
+    comb_tail n (c0 :: c1 :: rest) fr =
+    match rest with [] => dist_sw n comb fr' | _ => c <- build_or (comb :: rest) ;; dist_sw n c fr' end.
+Proof.
+  intros L0 L1. unfold comb_tail. cbn [should_combine_naively rbind].
+  destruct (is_lit_shape c0 || is_lit_shape c1) eqn:E.
+  - destruct (naive_comb_struct c0 c1 rest L0 L1) as [ors [Co ->]].
+    exists (NAnd ors), fr. split; [now apply cnf_good|]. destruct rest; reflexivity.
+  - apply orb_false_iff in E. destruct E as [E0 E1].
+    exists (NAnd [NOr [NNot (NVar fr); c0]; NOr [NVar fr; c1]]), (fr + 1).
+    split; [apply sw_good; now apply loc_notshape|].
+    cbn [switching_combination]. destruct rest as [|r0 rest]; [reflexivity|].
+    destruct (build_or _) as [g|e]; reflexivity.
+Qed.
+
+Lemma Forall2_len {A B} (Rr : A -> B -> Prop) l l' : Forall2 Rr l l' -> length l = length l'.
+Proof. induction 1; cbn [length]; congruence. Qed.
+
+(** [k + 2] clauses, one of them a conjunction: [k + 5] levels suffice *)
+Lemma chain_total k : forall n cl fr,
+  length cl = (k + 2)%nat -> (k + 5 <= n)%nat ->
+  (forall x, In x cl -> lit_or_cnf x = true) ->
+  exists g b, comb_tail n cl fr = Ok (g, b).
+Proof.
+  induction k as [|k IH]; intros n cl fr Hlen Hn Hcl;
+    (destruct cl as [|c0 [|c1 rest]]; cbn [length] in Hlen; try lia);
+    destruct (comb_tail_struct n c0 c1 rest fr (Hcl c0 (or_introl eq_refl)) (Hcl c1 (or_intror (or_introl eq_refl))))
+      as [comb [fr' [[Gc [Ac Tc]] ->]]].
+  - destruct rest; [|cbn [length] in Hlen; lia].
+    replace n with (5 + (n - 5))%nat by lia. apply Tc.
+  - destruct rest as [|r0 rest']; [cbn [length] in Hlen; lia|]. set (rest := r0 :: rest') in *.
+    assert (Lr : forall x, In x rest -> lit_or_cnf x = true) by (intros x Hx; apply Hcl; right; now right).
+    assert (NO : forall x, In x (comb :: rest) -> is_or x = false).
+    { intros x [<-|Hx]; [destruct comb; cbn in Ac; try discriminate; reflexivity|].
+      now apply lit_or_cnf_G, Lr. }
+    assert (GG : forall x, In x (comb :: rest) -> G x = true).
+    { intros x [<-|Hx]; [assumption|]. now apply lit_or_cnf_G, Lr. }
+    destruct (build_or_total (comb :: rest)) as [c Hc]. rewrite Hc. cbn [rbind].
+    destruct (build_or_noflat _ _ NO Hc) as [l' [-> Pl]].
+    destruct n as [|m]; [lia|]. rewrite dist_sw_or.
+    assert (T : forall x, In x l' -> total_on (dist_sw m) x).
+    { intros x Hx. apply (Permutation_in _ (Permutation_sym Pl)) in Hx. destruct Hx as [<-|Hx].
+      - replace m with (5 + (m - 5))%nat by lia. apply Tc.
+      - replace m with (3 + (m - 3))%nat by lia. apply rerun_total. now apply Lr. }
+    destruct (dist_fold_total _ l' T [] fr') as [ys [fr2 [E C]]]. rewrite E. cbn [rbind app].
+    destruct (pysort_total ys) as [cl' Hcl']. rewrite Hcl'. cbn [rbind]. apply pysort_perm in Hcl'.
+    assert (HG : forallb G l' = true).
+    { apply forallb_forall. intros x Hx. apply GG. now apply (Permutation_in _ (Permutation_sym Pl)). }
+    pose proof (chain_shapes _ _ _ _ _ (dist_sw_shape m) C HG) as F.
+    assert (Len : length cl' = (k + 2)%nat).
+    { rewrite <- (Permutation_length Hcl'), <- (Forall2_len _ _ _ F), <- (Permutation_length Pl).
+      cbn [length] in *. lia. }
+    replace (1 <? length cl')%nat with true by (symmetry; apply Nat.ltb_lt; lia).
+    assert (SN : should_not_combine cl' = false).
+    { unfold should_not_combine. apply negb_false_iff. apply existsb_exists.
+      assert (Hcomb : In comb l') by (apply (Permutation_in _ Pl); now left).
+      destruct (Forall2_in_l _ _ _ _ F Hcomb) as [y [Hy [_ [_ PA]]]].
+      exists y. split; [now apply (Permutation_in _ Hcl')|now apply PA]. }
+    rewrite SN. apply IH; [assumption|lia|].
+    intros y Hy. apply (Permutation_in _ (Permutation_sym Hcl')) in Hy.
+    destruct (Forall2_in_r _ _ _ _ F Hy) as [x [Hx [_ [P _]]]]. apply P. apply NO.
+    now apply (Permutation_in _ (Permutation_sym Pl)).
+Qed.
+
+(** recursion depth of [__distribute_ors_switching] on the output of [__apply_demorgan] *)
+Fixpoint sneed (f : nf) : nat :=
+  match f with
+  | NVar _ | NNot _ => 1
+  | NAnd l => S (fold_right (fun x a => Nat.max (sneed x) a) O l)
+  | NOr l => S (Nat.max (fold_right (fun x a => Nat.max (sneed x) a) O l) (length l + 3))
+  end.
+
+Lemma dist_sw_total n : forall f, G f = true -> (sneed f <= n)%nat -> total_on (dist_sw n) f.
+Proof.
+  induction n as [|n IH]; intros f Gf Hn a.
+  - destruct f; cbn in Hn; lia.
+  - destruct f as [z|c|l|l].
+    + cbn. eauto.
+    + destruct c; cbn in Gf; try discriminate. cbn. eauto.
+    + rewrite dist_sw_and. change (sneed (NAnd l)) with (S (mx sneed l)) in Hn.
+      assert (T : forall x, In x l -> total_on (dist_sw n) x).
+      { intros x Hx. apply IH.
+        - cbn [G] in Gf. rewrite forallb_forall in Gf. now apply Gf.
+        - pose proof (proj1 (mx_le sneed l _) (Nat.le_refl _) x Hx). lia. }
+      destruct (dist_fold_total _ l T [] a) as [ys [fr [E _]]]. rewrite E. cbn [rbind app].
+      destruct (build_and_total ys) as [g ->]. cbn [rbind]. eauto.
+    + rewrite dist_sw_or. change (sneed (NOr l)) with (S (Nat.max (mx sneed l) (length l + 3))) in Hn.
+      destruct (G_or_members l Gf) as [Gl NO].
+      assert (T : forall x, In x l -> total_on (dist_sw n) x).
+      { intros x Hx. apply IH.
+        - rewrite forallb_forall in Gl. now apply Gl.
+        - pose proof (proj1 (mx_le sneed l _) (Nat.le_refl _) x Hx). lia. }
+      destruct (dist_fold_total _ l T [] a) as [ys [fr [E C]]]. rewrite E. cbn [rbind app].
+      destruct (pysort_total ys) as [cl Hcl]. rewrite Hcl. cbn [rbind]. apply pysort_perm in Hcl.
+      pose proof (chain_shapes _ _ _ _ _ (dist_sw_shape n) C Gl) as F.
+      destruct (1 <? length cl)%nat eqn:Len.
+      * destruct (should_not_combine cl); [eauto|]. apply Nat.ltb_lt in Len.
+        assert (Ll : length cl = length l) by (rewrite <- (Permutation_length Hcl); symmetry; apply (Forall2_len _ _ _ F)).
+        apply (chain_total (length cl - 2)); [lia|lia|].
+        intros y Hy. apply (Permutation_in _ (Permutation_sym Hcl)) in Hy.
+        destruct (Forall2_in_r _ _ _ _ F Hy) as [x [Hx [_ [P _]]]]. apply P. now apply NO.
+      * destruct cl; eauto.
+Qed.
+
+Lemma nsize_pos f : (1 <= nsize f)%nat.
+Proof. destruct f; cbn; lia. Qed.
+
+Lemma nsum_len l : (length l <= nsum l)%nat.
+Proof.
+  unfold nsum. induction l as [|x l IH]; cbn [length fold_right]; [lia|]. pose proof (nsize_pos x). lia.
+Qed.
+
+Lemma sneed_bound f : (sneed f <= nsize f + 3)%nat.
+Proof.
+  induction f as [z|c IH|l IH|l IH] using nf_ind'.
+  - cbn. lia.
+  - cbn. lia.
+  - change (sneed (NAnd l)) with (S (mx sneed l)). change (nsize (NAnd l)) with (S (nsum l)).
+    assert (M : (mx sneed l <= nsum l + 3)%nat).
+    { apply mx_le. intros x Hx. rewrite Forall_forall in IH. specialize (IH x Hx).
+      pose proof (nsum_in x l Hx). lia. }
+    lia.
+  - change (sneed (NOr l)) with (S (Nat.max (mx sneed l) (length l + 3))). change (nsize (NOr l)) with (S (nsum l)).
+    assert (M : (mx sneed l <= nsum l + 3)%nat).
+    { apply mx_le. intros x Hx. rewrite Forall_forall in IH. specialize (IH x Hx).
+      pose proof (nsum_in x l Hx). lia. }
+    pose proof (nsum_len l). lia.
+Qed.
+
+(** [to_cnf_switching] returns on every formula and every counter and its
+    result has CNF shape; under the calling convention the result has the same
+    models, projected to the original variables, as the input. *)
+Theorem switching_total f nv :
+  exists g nv', to_cnf_switching f nv = Ok (g, nv') /\
+    is_cnf g = true /\
+    (1 <= nv -> (forall z, In z (leaves f) -> Z.abs z < nv) ->
+     nv <= nv' /\
+     (forall z, In z (nleaves g) -> In z (leaves f) \/ nv <= z < nv') /\
+     (forall s, (exists t, (forall v, ~ (nv <= v < nv') -> t v = s v) /\ neval t g = true) <-> eval s f = true)).
+Proof.
+  assert (T : exists g nv', to_cnf_switching f nv = Ok (g, nv') /\ is_cnf g = true).
+  { unfold to_cnf_switching. destruct (demorgan_fuel_total (elim f)) as [g1 H1]. rewrite H1. cbn [rbind].
+    pose proof (demorgan_G _ _ _ H1) as G1.
+    assert (Hf : (sneed g1 <= switching_fuel g1)%nat).
+    { unfold switching_fuel. pose proof (sneed_bound g1). lia. }
+    destruct (dist_sw_total _ g1 G1 Hf nv) as [g2 [fr E]]. rewrite E. cbn [rbind].
+    exists (wrap_and g2), fr. split; [reflexivity|].
+    destruct (dist_sw_shape _ g1 nv g2 fr G1 E) as [Rg _]. now apply wrap_and_R. }
+  destruct T as [g [nv' [H C]]]. exists g, nv'. split; [assumption|]. split; [assumption|].
+  intros Hnv HL. destruct (switching_correct f nv g nv' Hnv HL H) as [A [_ [B D]]]. auto.
+Qed.
+
+Lemma ex_switching_repaired :
+  to_cnf_switching (FNot (FIf (FVar 1) (FVar 2))) 3 = Ok (NAnd [NVar 1; NNot (NVar 2)], 3) /\
+  to_cnf_switching (FOr []) 1 = Ok (NAnd [NOr []], 1).
+Proof. split; vm_compute; reflexivity. Qed.
 
 Lemma ex_switching :
   (forall z, In z (leaves (FOr [FAnd [FVar 1; FVar 2]; FAnd [FVar 3; FVar (-4)]; FIf (FVar 1) (FVar 3)])) -> Z.abs z < 5) /\
